@@ -12,6 +12,8 @@ def get_class_counts(classes, n_classes):
             classes = torch.from_numpy(classes).long()
         else:
             classes = torch.tensor(classes, dtype=torch.long)
+    # compact label storage (uint8/int8/int16 tensors): uint8 tensors would be interpreted as masks when used as index
+    classes = classes.long()
     # count unlabeled classes
     unlabeled_count = (classes == -1).sum().item()
     # filter out unlabeled
